@@ -114,6 +114,13 @@ func (s *state) removeTorrent(h core.InfoHash, err error) {
 		if err := s.sched.torrentArchive.DeleteTorrent(ctrl.dispatcher.Digest()); err != nil {
 			s.sched.log().Errorf("Error deleting torrent from archive: %s", err)
 		}
+	} else {
+		// The torrent completed but its completion event has not been applied yet.
+		// Once the control is gone that event finds nothing to notify, so answer
+		// the remaining waiters here or their Download calls would never return.
+		for _, errc := range ctrl.errors {
+			errc <- nil
+		}
 	}
 	delete(s.torrentControls, h)
 }
